@@ -19,11 +19,14 @@ import (
 	"io"
 	"net"
 	"strings"
+	"sync"
 	"syscall"
 	"testing"
 	"time"
 
+	"github.com/rqlite/rqlite/v10/auth"
 	"github.com/rqlite/rqlite/v10/cluster/proto"
+	command "github.com/rqlite/rqlite/v10/command/proto"
 	pb "google.golang.org/protobuf/proto"
 )
 
@@ -102,6 +105,102 @@ func c35ParseModel(l string) (lens []int, phase string, capv int, ok bool) {
 	return lens, strings.TrimPrefix(f[1], "phase="), capv, true
 }
 
+// c35NoPermissionStateChange: a node whose credential store grants nothing to anybody;
+// every command type is sent well-formed and without credentials. Nothing that changes
+// the node's state may happen.
+func c35NoPermissionStateChange(t *testing.T, rep *vfReport) {
+	var mu sync.Mutex
+	var calls []string
+	note := func(s string) { mu.Lock(); calls = append(calls, s); mu.Unlock() }
+	db := &mockDatabase{
+		executeFn: func(er *command.ExecuteRequest) ([]*command.ExecuteQueryResponse, uint64, error) {
+			note("db.Execute")
+			return nil, 0, nil
+		},
+		queryFn: func(qr *command.QueryRequest) ([]*command.QueryRows, uint64, error) {
+			note("db.Query")
+			return nil, 0, nil
+		},
+		requestFn: func(rr *command.ExecuteQueryRequest) ([]*command.ExecuteQueryResponse, uint64, uint64, error) {
+			note("db.Request")
+			return nil, 0, 0, nil
+		},
+		backupFn: func(br *command.BackupRequest, dst io.Writer) error { note("db.Backup"); return nil },
+		loadFn:   func(lr *command.LoadRequest) error { note("db.Load"); return nil },
+	}
+	mgr := &MockManager{
+		removeNodeFn: func(rn *command.RemoveNodeRequest) error { note("mgr.Remove"); return nil },
+		notifyFn:     func(n *command.NotifyRequest) error { note("mgr.Notify"); return nil },
+		joinFn:       func(j *command.JoinRequest) error { note("mgr.Join"); return nil },
+		stepdownFn:   func(wait bool, id string) error { note("mgr.Stepdown"); return nil },
+	}
+	cs := auth.NewCredentialsStore()
+	if err := cs.Load(strings.NewReader(`[{"username":"a","password":"p","perms":[]}]`)); err != nil {
+		t.Fatalf("credential store: %v", err)
+	}
+	tn := mustNewMockTransport()
+	s := New(tn, db, mgr, cs)
+	s.logger.SetOutput(io.Discard)
+	hwm := make(chan uint64, 4)
+	s.RegisterHWMUpdate(hwm)
+	if err := s.Open(); err != nil {
+		t.Fatalf("open: %v", err)
+	}
+	defer s.Close()
+	cmds := []*proto.Command{
+		{Type: proto.Command_COMMAND_TYPE_EXECUTE, Request: &proto.Command_ExecuteRequest{ExecuteRequest: &command.ExecuteRequest{Request: &command.Request{}}}},
+		{Type: proto.Command_COMMAND_TYPE_QUERY, Request: &proto.Command_QueryRequest{QueryRequest: &command.QueryRequest{Request: &command.Request{}}}},
+		{Type: proto.Command_COMMAND_TYPE_REQUEST, Request: &proto.Command_ExecuteQueryRequest{ExecuteQueryRequest: &command.ExecuteQueryRequest{Request: &command.Request{}}}},
+		{Type: proto.Command_COMMAND_TYPE_BACKUP, Request: &proto.Command_BackupRequest{BackupRequest: &command.BackupRequest{}}},
+		{Type: proto.Command_COMMAND_TYPE_BACKUP_STREAM, Request: &proto.Command_BackupRequest{BackupRequest: &command.BackupRequest{}}},
+		{Type: proto.Command_COMMAND_TYPE_LOAD, Request: &proto.Command_LoadRequest{LoadRequest: &command.LoadRequest{}}},
+		{Type: proto.Command_COMMAND_TYPE_LOAD_CHUNK, Request: &proto.Command_LoadChunkRequest{LoadChunkRequest: &command.LoadChunkRequest{}}},
+		{Type: proto.Command_COMMAND_TYPE_REMOVE_NODE, Request: &proto.Command_RemoveNodeRequest{RemoveNodeRequest: &command.RemoveNodeRequest{Id: "n"}}},
+		{Type: proto.Command_COMMAND_TYPE_NOTIFY, Request: &proto.Command_NotifyRequest{NotifyRequest: &command.NotifyRequest{Id: "n"}}},
+		{Type: proto.Command_COMMAND_TYPE_JOIN, Request: &proto.Command_JoinRequest{JoinRequest: &command.JoinRequest{Id: "n", Voter: true}}},
+		{Type: proto.Command_COMMAND_TYPE_JOIN, Request: &proto.Command_JoinRequest{JoinRequest: &command.JoinRequest{Id: "n"}}},
+		{Type: proto.Command_COMMAND_TYPE_STEPDOWN, Request: &proto.Command_StepdownRequest{StepdownRequest: &command.StepdownRequest{}}},
+		{Type: proto.Command_COMMAND_TYPE_HIGHWATER_MARK_UPDATE, Request: &proto.Command_HighwaterMarkUpdateRequest{HighwaterMarkUpdateRequest: &proto.HighwaterMarkUpdateRequest{NodeId: "x", HighwaterMark: 1<<64 - 1}}},
+		{Type: proto.Command_COMMAND_TYPE_GET_NODE_META},
+	}
+	for _, withCreds := range []bool{false, true} {
+		for _, c := range cmds {
+			c.Credentials = nil
+			if withCreds {
+				c.Credentials = &proto.Credentials{Username: "a", Password: "p"} // a known user who holds no permission
+			}
+			mu.Lock()
+			calls = nil
+			mu.Unlock()
+			p, _ := pb.Marshal(c)
+			conn, err := tn.Dial(s.Addr(), 5*time.Second)
+			if err != nil {
+				t.Fatalf("dial: %v", err)
+			}
+			conn.SetDeadline(time.Now().Add(20 * time.Second))
+			conn.Write(c35Frame(p))
+			conn.(*net.TCPConn).CloseWrite()
+			io.ReadAll(conn)
+			conn.Close()
+			name := strings.TrimPrefix(c.Type.String(), "COMMAND_TYPE_")
+			mu.Lock()
+			got := append([]string(nil), calls...)
+			mu.Unlock()
+			select {
+			case v := <-hwm:
+				got = append(got, fmt.Sprintf("highwater-mark-update-delivered(%d)", v))
+			default:
+			}
+			rep.Count("no-permission:" + name)
+			if len(got) > 0 {
+				rep.Fail("state-change-without-permission:"+name,
+					fmt.Sprintf("credential store grants no permission to anybody; %s sent with credentials present=%v: the node performed %v", name, withCreds, got),
+					map[string]interface{}{"command": name, "credentials_present": withCreds, "performed": got, "frame_hex": vfHexB(c35Frame(p))})
+			}
+		}
+	}
+}
+
 func TestVerifC35Frames(t *testing.T) {
 	rep := vfNewReport("C35", "framing: streams of 1-6 items (valid GET_NODE_META frames, zero-length frames, undecodable payloads, undefined command types, lengths >= 2^63, large announced lengths with few bytes, truncated frames) sent to the real cluster.Service over TCP; the model parses the stream, the harness compares the number of response frames and whether the service closes by itself; non-trivial when the stream has at least two items; distinct by the bytes; plus the assumed growth law of append and io.ReadAll's capacity bound measured on the real runtime")
 	defer rep.Write()
@@ -135,6 +234,8 @@ func TestVerifC35Frames(t *testing.T) {
 		t.Fatalf("open: %v", err)
 	}
 	defer s.Close()
+
+	c35NoPermissionStateChange(t, rep)
 
 	n := vfScale(300, 6000)
 	var streams []c35Stream
@@ -205,7 +306,7 @@ func TestVerifC35Frames(t *testing.T) {
 		if !wantClosed {
 			conn.(*net.TCPConn).CloseWrite()
 		}
-		all, err := io.ReadAll(conn) // for wantClosed the service must end the stream by itself
+		all, err := io.ReadAll(conn)                                       // for wantClosed the service must end the stream by itself
 		closedByItself := err == nil || errors.Is(err, syscall.ECONNRESET) // reset: closed with our bytes still unread
 		conn.Close()
 		gotResp := 0
